@@ -18,6 +18,8 @@
 (*   - with EMFILE iff K descriptors are already open (K >= 1),                                   *)
 (*   - always for one permanently failing path `bad`,                                            *)
 (*   - at most MaxTransient times for no lasting reason (transient failure).                     *)
+(* Files of an earlier run may already exist at some target paths (constant Stale): the first    *)
+(* open of a path in this run must replace them ('w'), every re-open must append ('a').          *)
 (*                                                                                               *)
 (* Variant selects the intended design or the behaviour of the code at the pinned commit:        *)
 (*   "design"        OpenFailed_CloseOthers closes all OTHER handles and keeps the entry that is *)
@@ -36,6 +38,7 @@
 EXTENDS Integers, FiniteSets, Sequences, TLC, Json, Util
 
 CONSTANTS NPaths,        \* target files are 1..NPaths
+          Stale,         \* paths at which a file of an EARLIER run already exists (stale content <<0>>) when this run starts
           Ks,            \* set of OS descriptor limits to explore (K chosen in Init)
           MHs,           \* set of maxHandles settings
           PEs,           \* set of pruneEvery settings
@@ -48,6 +51,7 @@ CONSTANTS NPaths,        \* target files are 1..NPaths
 Paths == 1 .. NPaths
 DevCloseAll == Variant \in {"impl", "impl_closeall"}
 DevPartial  == Variant \in {"impl", "impl_partial"}
+MutSeenEarly == Variant = "mut_seen_early"   \* seeded change C19-m4: seen.add(path) before the open attempt (mutation control)
 
 VARIABLES K, maxh, pe, bad,     \* configuration / environment parameters, fixed in Init
           ent,       \* openHandles: [Paths -> {"none","partial","open"}]; "partial" = entry `{}` without 'handle'
@@ -71,6 +75,7 @@ NumEnt  == Cardinality({p \in Paths : ent[p] # "none"})
 OpenSet(e) == {p \in Paths : e[p] = "open"}
 NumFds  == LET f(p) == fds[p] IN SumSetF(Paths, f)
 MustFail == cur.p = bad \/ NumFds >= K
+SeenAfterFail == IF MutSeenEarly THEN seen \cup {cur.p} ELSE seen
 
 Done(op, raised, e2) ==      \* the call returns (or raises): remember what an observer must see
     trace' = IF Record THEN Append(trace, [op |-> op, p |-> cur.p, x |-> cur.x, raised |-> raised, open |-> OpenSet(e2)])
@@ -79,7 +84,7 @@ Done(op, raised, e2) ==      \* the call returns (or raises): remember what an o
 Init == /\ K \in Ks /\ maxh \in MHs /\ pe \in PEs /\ bad \in BadChoices
         /\ ent = [p \in Paths |-> "none"] /\ lastw = [p \in Paths |-> 0] /\ clock = 0
         /\ seen = {} /\ ctr = 0
-        /\ disk = [p \in Paths |-> <<>>] /\ fds = [p \in Paths |-> 0] /\ log = [p \in Paths |-> <<>>]
+        /\ disk = [p \in Paths |-> IF p \in Stale THEN <<0>> ELSE <<>>] /\ fds = [p \in Paths |-> 0] /\ log = [p \in Paths |-> <<>>]
         /\ pc = "idle" /\ cur = [p |-> 0, x |-> 0]
         /\ tbudget = MaxTransient /\ nops = 0 /\ att = 0 /\ tfs = {} /\ illegit = FALSE /\ trace = <<>>
 
@@ -112,13 +117,13 @@ TryOpen_Ok ==
 
 TryOpen_FailHard ==          \* EMFILE or the permanently failing path
     /\ pc = "open" /\ MustFail
-    /\ att' = att + 1 /\ pc' = "failed"
-    /\ UNCHANGED <<cfgvars, ent, lastw, clock, seen, ctr, disk, fds, log, cur, tbudget, nops, tfs, illegit, trace>>
+    /\ att' = att + 1 /\ pc' = "failed" /\ seen' = SeenAfterFail
+    /\ UNCHANGED <<cfgvars, ent, lastw, clock, ctr, disk, fds, log, cur, tbudget, nops, tfs, illegit, trace>>
 
 TryOpen_FailTransient ==
     /\ pc = "open" /\ ~MustFail /\ tbudget > 0
-    /\ att' = att + 1 /\ pc' = "failed" /\ tbudget' = tbudget - 1 /\ tfs' = tfs \cup {att + 1}
-    /\ UNCHANGED <<cfgvars, ent, lastw, clock, seen, ctr, disk, fds, log, cur, nops, illegit, trace>>
+    /\ att' = att + 1 /\ pc' = "failed" /\ tbudget' = tbudget - 1 /\ tfs' = tfs \cup {att + 1} /\ seen' = SeenAfterFail
+    /\ UNCHANGED <<cfgvars, ent, lastw, clock, ctr, disk, fds, log, cur, nops, illegit, trace>>
 
 OpenFailed_CloseOthers ==
     /\ pc = "failed" /\ NumEnt > 1
@@ -189,8 +194,10 @@ TypeOK == /\ ent \in [Paths -> {"none", "partial", "open"}]
           /\ \A p \in Paths : fds[p] \in 0 .. MaxOps
           /\ ctr \in 0 .. MaxOps /\ seen \subseteq Paths
 
-(* statement, sentence 1: each file holds exactly the records written for it, in write order *)
-Inv_C19_Content == pc = "idle" => \A p \in Paths : disk[p] = log[p]
+(* statement, sentence 1: each file holds exactly the records written for it (in THIS run), in write order;  *)
+(* a stale file of an earlier run is replaced by the first open of the run (a path no write() returned for is  *)
+(* not an output of the run and keeps whatever it held)                                                     *)
+Inv_C19_Content == pc = "idle" => \A p \in Paths : log[p] # <<>> => disk[p] = log[p]
 
 (* statement, sentence 2: write() raises only when the file cannot be opened with everything else closed *)
 Inv_C19_Raise == ~illegit
@@ -204,9 +211,9 @@ Inv_C19_NoPartial == pc = "idle" => \A p \in Paths : ent[p] # "partial"
 (* the environment never lets the process exceed the limit *)
 Inv_C19_OSLimit == NumFds <= K
 
-(* a path that has content is never re-opened in truncating mode *)
+(* once a path has been opened in this run it is never re-opened in truncating mode *)
 IsPrefixOf(a, b) == Len(a) <= Len(b) /\ SubSeq(b, 1, Len(a)) = a
-Act_C19_NoTruncate == [][\A p \in Paths : IsPrefixOf(disk[p], disk'[p])]_vars
+Act_C19_NoTruncate == [][\A p \in seen : IsPrefixOf(disk[p], disk'[p])]_vars
 
 (* prune() leaves at most maxHandles entries *)
 Act_C19_PruneBound == [][pc = "prune" /\ ~illegit' => Cardinality({p \in Paths : ent'[p] # "none"}) <= maxh]_vars
@@ -218,7 +225,7 @@ Inv_C19_RetryBound == att <= 2 * nops
 (* Scenario generation (spec -> code): a finished behaviour of the design, with what an observer must see *)
 Final == nops = MaxOps /\ pc = "idle"
 Emit == IF Final /\ Record
-        THEN PrintT("@@SCENARIO " \o ToJson([K |-> K, mh |-> maxh, pe |-> pe, bad |-> bad, tfs |-> tfs,
+        THEN PrintT("@@SCENARIO " \o ToJson([K |-> K, mh |-> maxh, pe |-> pe, bad |-> bad, tfs |-> tfs, stale |-> Stale,
                                              ops |-> trace, disk |-> disk, raised_unjustified |-> illegit]))
         ELSE TRUE
 =================================================================================================
